@@ -49,11 +49,8 @@ def truth(I, run, v: Value, node, fork=True) -> Optional[bool]:
         return decide_cmp(I, run, ">", ln, C(0), node, fork)
     if k == "int":
         return decide_cmp(I, run, "!=", v, C(0), node, fork)
-    if k in ("func", "obj"):
-        f = run.fact(v)
-        if f.truth is None and not f.excl:
-            # declared-object symbols are truthy unless a rule made them nullable
-            pass
+    if k == "func":
+        return True  # a function-valued symbol is a callable object
     f = run.fact(v)
     if f.eq is not None:
         return bool(f.eq.v)
@@ -1042,6 +1039,26 @@ def _b_len(I, run, args, kwargs, node):
         return v.args[0]  # result of an exact-n read has length n
     if isinstance(v, App) and v.op == "xor":
         return _b_len(I, run, [v.args[1]], {}, node)  # masking preserves the length
+    if isinstance(v, App) and v.op == "slice" and v.args[3] == NONE and run.kind_of(v.args[0]) in ("bytes", "str"):
+        base, lo, hi = v.args[0], I.resolve(run, v.args[1]), I.resolve(run, v.args[2])
+        L = _b_len(I, run, [base], {}, node)
+        if hi == NONE:
+            if lo == NONE:
+                return L
+            if isinstance(lo, Value) and lo.key() == L.key():
+                return C(0)
+            # x[lo:] with 0 <= lo <= len(x) on this path
+            if decide_cmp(I, run, ">=", lo, C(0), node, fork=False) and decide_cmp(I, run, "<=", lo, L, node, fork=False):
+                return binop(I, run, ast.Sub(), L, lo, node)
+        elif lo in (NONE, C(0)):
+            if decide_cmp(I, run, ">=", hi, C(0), node, fork=False) and decide_cmp(I, run, "<=", hi, L, node, fork=False):
+                return hi
+    if isinstance(v, App) and v.op in ("m:encode",) and isinstance(v.args[0], App) and v.args[0].op == "chr":
+        return C(1) if v.args[1:] and v.args[1] == C("latin-1") else App("len", (v,), "int")
+    if isinstance(v, App) and v.op == "pack" and isinstance(v.args[0], C):
+        sz = {"!H": 2, "!Q": 8, "!I": 4, ">H": 2, ">Q": 8, "<H": 2, "<Q": 8}.get(v.args[0].v)
+        if sz is not None:
+            return C(sz)
     if isinstance(v, App) and v.op == "concat":
         # length of a template = sum of the parts
         total: Value = C(0)
